@@ -1,7 +1,92 @@
-(* C11 - placeholder while the correspondence is brought up. *)
-From Verif Require Import Lib.Bytes StateRes.Event StateRes.V2.
+(* C11 - State resolution is order-independent and yields well-formed state; every ordering
+   the library returns for an acyclic event set is a topological permutation.
 
-Theorem c11_stub : apply_events [] [] = [].
-Proof. reflexivity. Qed.
+   Model: StateRes/{Event,Kahn,V2,V1,Entry}.v (tied to the Go code by ./check C10 and
+   ./check C11).  Go map / hash-set iteration orders are the functions sh* below: arbitrary
+   rearrangements (Permutation (sh l) l), so every statement holds for every iteration order. *)
+From Coq Require Import Permutation.
+From Verif Require Import Lib.Bytes StateRes.Event StateRes.Kahn StateRes.V2 StateRes.V1 StateRes.Entry
+     StateRes.SortProofs StateRes.KahnProofs StateRes.OrderProofs.
 
-Print Assumptions c11_stub.
+(* slices.SortStableFunc by a total order whose ties are identities: the result depends only on
+   the set of elements, not on the order they were in (map iteration order, input order) *)
+Theorem sort_total_order_canonical (T : Type) (cmp : T -> T -> comparison) (l l' : list T) :
+  (forall a b, cmp b a = CompOpp (cmp a b)) ->
+  (forall a b c, cmp a b <> Gt -> cmp b c <> Gt -> cmp a c <> Gt) ->
+  (forall a b, In a l -> In b l -> cmp a b = Eq -> a = b) ->
+  Permutation l l' -> ssort cmp l = ssort cmp l'.
+Proof. intros A Tr E P. apply ssort_canonical; assumption. Qed.
+
+(* both Kahn implementations (generic in the reference function and the sort key): for a
+   duplicate-free, acyclic input the output is a permutation of the input in which every item
+   follows each item it refers to that is present in the input; in particular there are no
+   strays *)
+Theorem kahn_is_topological_permutation
+  (T : Type) (tid : T -> bytes) (trefs : T -> list bytes) (tcmp : T -> T -> comparison)
+  (sh : list T -> list T) (items : list T) (rank : bytes -> nat) :
+  (forall l, Permutation (sh l) l) ->
+  NoDup (map tid items) ->
+  ranked T tid trefs items rank ->
+  Permutation (kahn tid trefs tcmp sh items) items /\
+  ancestors_first T tid trefs items (kahn tid trefs tcmp sh items).
+Proof. intros Hsh ND R. apply kahn_topological with (rank := rank); assumption. Qed.
+
+Section Orderings.
+  Variable shE : list event -> list event.
+  Variable shP : list pwrap -> list pwrap.
+  Variable shO : list owrap -> list owrap.
+  Hypothesis shE_perm : forall l, Permutation (shE l) l.
+  Hypothesis shP_perm : forall l, Permutation (shP l) l.
+  Hypothesis shO_perm : forall l, Permutation (shO l) l.
+
+  (* ReverseTopologicalOrdering / HeaderedReverseTopologicalOrdering, by auth events or by prev
+     events, for EVERY input list (repeated entries included): a permutation of the distinct
+     input events with ancestors first. Also the ordering inside LoadAndVerify and
+     RequestBackfill, which call this function. *)
+  Theorem reverse_topological_ordering_is_topological_permutation
+    (ver : bytes) (by_auth : bool) (input : list event) :
+    acyclic (if by_auth then e_auth else e_prev) (dedup_events input) ->
+    topological_permutation (if by_auth then e_auth else e_prev) (dedup_events input)
+                            (reverse_topological_ordering shP shO ver by_auth input).
+  Proof. apply reverse_topological_ordering_topological; assumption. Qed.
+
+  Theorem linearise_state_response_is_topological_permutation
+    (ver : bytes) (auth_events state_events : list event) :
+    acyclic e_auth (dedup_events (auth_events ++ state_events)) ->
+    topological_permutation e_auth (dedup_events (auth_events ++ state_events))
+                            (linearise_state_response shE shP shO ver auth_events state_events).
+  Proof. apply linearise_topological; assumption. Qed.
+
+  (* the ordering of the conflicted power events inside the resolver, when the list handed to
+     it has no repeated entries *)
+  Theorem power_order_is_topological_permutation
+    (priv : bool) (cl ud : Z) (authmap : list event) (create : option event) (l : list event) :
+    NoDup (ids_of l) -> acyclic e_auth l ->
+    topological_permutation e_auth l (power_order shP priv cl ud authmap create l).
+  Proof. apply power_order_topological; assumption. Qed.
+End Orderings.
+
+(* ---------- non-vacuity: a concrete chain A <- B <- C given in the order C, A, B ---------- *)
+Definition ex_ev (id : bytes) (auth : list bytes) (ts : Z) : event :=
+  mkEvent id (bs "m.room.topic") (Some []) (bs "@u:h") ts 1%Z auth auth [] (bs "{}").
+Definition ex_A := ex_ev (bs "$A") [] 30%Z.
+Definition ex_B := ex_ev (bs "$B") [bs "$A"] 20%Z.
+Definition ex_C := ex_ev (bs "$C") [bs "$B"; bs "$A"] 10%Z.
+
+Example ordering_concrete :
+  ids_of (reverse_topological_ordering (fun l => l) (fun l => l) (bs "10") true [ex_C; ex_A; ex_B; ex_C])
+  = [bs "$A"; bs "$B"; bs "$C"].
+Proof. vm_compute. reflexivity. Qed.
+
+Example acyclic_inhabited : acyclic e_auth [ex_C; ex_A; ex_B].
+Proof.
+  exists (fun k => if bytes_eqb k (bs "$A") then 0 else if bytes_eqb k (bs "$B") then 1 else 2)%nat.
+  intros e a [<-|[<-|[<-|[]]]] Ha _; simpl in Ha;
+    repeat (destruct Ha as [<-|Ha]; [vm_compute; repeat constructor|]); destruct Ha.
+Qed.
+
+Print Assumptions sort_total_order_canonical.
+Print Assumptions kahn_is_topological_permutation.
+Print Assumptions reverse_topological_ordering_is_topological_permutation.
+Print Assumptions linearise_state_response_is_topological_permutation.
+Print Assumptions power_order_is_topological_permutation.
